@@ -135,7 +135,7 @@ def main():
             b = bytes.fromhex(hx)
             try:
                 v = int(b, base) if base == 16 else int(b.decode('latin-1'), base)
-                vals.append(str(v))
+                vals.append(('-0x%x' % -v) if v < 0 else ('0x%x' % v))     # hex: str() of a huge int is itself limited
             except ValueError:
                 vals.append(None)
         out['ints'] = vals
